@@ -26,7 +26,12 @@ Theorem tie_gate_streams : gen_gate_true_stream = "smart_stream" /\ gen_gate_fal
 Proof. vm_compute. split; reflexivity. Qed.
 
 (* every severity_filter threshold starts at trace *)
-Theorem tie_filter_initial : gen_filter_initial = sev_name (init_thresholds 0).
+Theorem tie_filter_initial : gen_filter_initial = sev_name (init_thresholds 0 0).
+Proof. vm_compute. reflexivity. Qed.
+
+(* the threshold is a static data member of the class template severity_filter<Record, N>: one per record type AND index,
+   as in LogModel.thresholds *)
+Theorem tie_filter_storage : gen_filter_storage = "static member of severity_filter<Record, N>".
 Proof. vm_compute. reflexivity. Qed.
 
 (* logger::trace() … logger::fatal() instantiate the stream of their own severity *)
